@@ -2008,18 +2008,14 @@ class ExpressionEvaluator(Parser):
 
             # Strip suffix (if present)
             suffix = None
-            suffixes = [
-                "ull",
-                "ULL",
-                "ul",
-                "UL",
-                "ll",
-                "LL",
-                "u",
-                "U",
-                "l",
-                "L",
-            ]
+            # u/U combined with l/L or ll/LL, in either order and any case
+            # combination; longest suffixes first.
+            longs = ["ll", "LL", "l", "L"]
+            suffixes = (
+                [u + w for w in longs for u in "uU"]
+                + [w + u for w in longs for u in "uU"]
+                + ["ll", "LL", "u", "U", "l", "L"]
+            )
             for s in suffixes:
                 if value.endswith(s):
                     suffix = s
